@@ -74,3 +74,14 @@ def random_any_config(rng, unc, n=None, base=None):
     for o in rng.sample(opts, min(n, len(opts))):
         lines.append("%s=%s" % (o["name"], value(rng, o)))
     return "\n".join(lines) + "\n"
+
+
+def random_full_config(rng, unc, keep_default=0.0):
+    """every option (debug / lexer-redefining / file-inserting ones aside) set to a random in-range value: any
+    particular interaction of two or three options is present in a sizeable fraction of such configurations"""
+    lines = []
+    for o in any_options(unc):
+        if rng.random() < keep_default:
+            continue
+        lines.append("%s=%s" % (o["name"], value(rng, o)))
+    return "\n".join(lines) + "\n"
